@@ -20,11 +20,13 @@ void *mmap(void *addr, size_t len, int prot, int flags, int fd, off_t off)
 	if (nondet_bool()) return MAP_FAILED;
 	vg_map = malloc(len);            /* exactly len bytes, arbitrary content */
 	__CPROVER_assume(vg_map != NULL);
+	vg_maps++;
 	return vg_map;
 }
-int munmap(void *addr, size_t len) { VG_A(addr == vg_map, "munmap of the mapping"); return 0; }
-int open(const char *path, int flags, ...) { int fd = nondet_int(); __CPROVER_assume(fd >= -1); return fd; }
-int close(int fd) { return 0; }
+static int vg_maps, vg_fds; static int vg_opened_fd;
+int munmap(void *addr, size_t len) { VG_A(addr == vg_map, "munmap of the mapping"); vg_maps--; return 0; }
+int open(const char *path, int flags, ...) { int fd = nondet_int(); __CPROVER_assume(fd >= -1); if (fd >= 0) { vg_fds++; vg_opened_fd = fd; } return fd; }
+int close(int fd) { VG_P("C18", fd == vg_opened_fd && vg_fds == 1, "only the descriptor the reader opened itself is closed, once"); vg_fds--; return 0; }
 char *getenv(const char *name)
 {
 	if (nondet_bool()) return NULL;
@@ -65,4 +67,9 @@ void h_reader_open(void)
 		VG_P("C19", r->index->size == 0 || r->index->restart_offset <= r->index->size - 4, "index restart array starts inside the index block");
 		VG_P("C19", r->m.index_block_offset < r->len_data, "index offset lies inside the file");
 	}
+	/* C18: whatever the outcome, the by-name open leaves no descriptor behind; a refused file leaves no mapping behind; a reader
+	 * that was returned releases its mapping when destroyed */
+	VG_P("C18", vg_fds == 0, "mtbl_reader_init closes the descriptor it opened on every path (also when the file does not open as a table)");
+	if (r == NULL) VG_P("C18", vg_maps == 0, "a file that does not open as a table leaves no mapping behind");
+	else { VG_P("C18", vg_maps == 1, "a reader holds exactly one mapping"); mtbl_reader_destroy(&r); VG_P("C18", vg_maps == 0 && r == NULL, "destroying the reader releases the mapping"); }
 }
